@@ -109,9 +109,9 @@ mutual
         | .float .. => [.tok tNeg, .tok tLP] ++ pieces a ++ [.tok tRP]
         | _ => [.tok tNeg] ++ wrapP a precUnary (pieces a)
     | .bin op _ a b =>
-        wrapP a (binPrec op) (pieces a) ++ [.sp, .tok (tOp op), .sp] ++ wrapP b (binPrec op + 1) (pieces b)
+        wrapP a (leftMin op) (pieces a) ++ [.sp, .tok (tOp op), .sp] ++ wrapP b (rightMin op) (pieces b)
     | .tern _ c a b =>
-        wrapP c precElvis (pieces c) ++ [.sp, .tok tTernIf, .sp] ++ wrapP a precElvis (pieces a) ++
+        wrapP c (precElvis + 1) (pieces c) ++ [.sp, .tok tTernIf, .sp] ++ wrapP a precElvis (pieces a) ++
           [.sp, .tok tColon, .sp] ++ pieces b
   def piecesArgs : ExprList → Bool → List Piece
     | .nil, _ => []
@@ -239,9 +239,9 @@ mutual
     | .dataRef _ k acc, ts => ∃ ta, RendersAccs acc ta ∧ ts = ⟨.tDollarIdent, 36 :: k⟩ :: ta
     | .not _ a, ts => ∃ ta, Slot precUnary a (Renders a) ta ∧ ts = tNot :: ta
     | .neg _ a, ts => ∃ ta, Slot (negMin a) a (Renders a) ta ∧ ts = tNeg :: ta
-    | .bin op _ a b, ts => ∃ ta tb, Slot (binPrec op) a (Renders a) ta ∧ Slot (binPrec op + 1) b (Renders b) tb ∧
+    | .bin op _ a b, ts => ∃ ta tb, Slot (leftMin op) a (Renders a) ta ∧ Slot (rightMin op) b (Renders b) tb ∧
         ts = ta ++ [tOp op] ++ tb
-    | .tern _ c a b, ts => ∃ tc ta tb, Slot precElvis c (Renders c) tc ∧ Slot precElvis a (Renders a) ta ∧
+    | .tern _ c a b, ts => ∃ tc ta tb, Slot (precElvis + 1) c (Renders c) tc ∧ Slot precElvis a (Renders a) ta ∧
         Slot 0 b (Renders b) tb ∧ ts = tc ++ [tTernIf] ++ ta ++ [tColon] ++ tb
   /-- further list items / arguments, each preceded by a comma -/
   def RendersSeq : ExprList → List Tk → Prop
